@@ -1267,6 +1267,8 @@ def replay(ctx, data):
     """True = the property holds on this input."""
     inp = data.get("input", {})
     how = inp.get("how", "")
+    if not how:
+        return True     # not a failing-input replay (e.g. a record of what no longer checks)
     if how == "name":
         from py_gql.schema.validation import _is_valid_name
         return bool(_is_valid_name("".join(chr(c) for c in inp["name"]))) != inp["real"]
@@ -1294,7 +1296,13 @@ def replay(ctx, data):
     labels = [tuple(l) for l in inp.get("labels", [])]
     if how.startswith("corpus"):
         from py_gql import build_schema
-        s = build_schema(inp["info"]["sdl"])
+        from py_gql.exc import SchemaValidationError
+        try:
+            s = build_schema(inp["info"]["sdl"])
+        except SchemaValidationError as e:   # build_schema validates while building
+            rules = Counter(attribute(str(x))[0] for x in e.errors)
+            expected = Counter(r for _, r in labels if r)
+            return bool(expected) and not (expected - rules)
     elif how == "sdl":
         s = build_sdl(desc)
     else:
